@@ -157,10 +157,13 @@ theorem msok_connectionMade (c : Nat) (w : World) : MsOk w (connectionMade c w).
   refine msok_andThen (msok_mInput _ _ _ _) ?_
   · intro v
     unfold useConnection
-    dsimp only
-    split
-    · exact MsOk.of_eq rfl
-    · unfold mainFire; split <;> exact MsOk.of_eq rfl
+    refine msok_andThen (MsOk.of_eq ?_) ?_
+    · obtain ⟨op, ps, e⟩ := resumeAll_same { v with conn := some c }
+      rw [e]
+    · intro x
+      split
+      · exact MsOk.refl _
+      · unfold mainFire; split <;> exact MsOk.of_eq rfl
 
 theorem msok_connectionLost (w : World) : MsOk w (connectionLost w).1 := by
   unfold connectionLost
@@ -172,11 +175,13 @@ theorem msok_connectionLost (w : World) : MsOk w (connectionLost w).1 := by
   intro v
   split
   · exact MsOk.of_eq rfl
-  · split
-    · refine MsOk.trans ?_ (msok_mInput _ _ _ _)
-      exact MsOk.of_eq rfl
-    · refine MsOk.trans ?_ (msok_mInput _ _ _ _)
-      exact MsOk.of_eq rfl
+  · refine msok_andThen (MsOk.of_eq ?_) ?_
+    · obtain ⟨op, ps, e⟩ := pauseAll_same { v with conn := none }
+      rw [e]
+    · intro x
+      split
+      · exact msok_mInput _ _ _ _
+      · exact msok_mInput _ _ _ _
 
 theorem msok_cOut (made : Nat → World → Res) (hm : ∀ c v, MsOk v (made c v).1) (g a : Nat) (o : Connector.Output)
     (w : World) : MsOk w (cOut made g a o w).1 := by
@@ -234,8 +239,11 @@ theorem msok_tInput (fuel : Nat) : ∀ (i : Terminator.Input) (v : World), MsOk 
         · exact MsOk.of_eq rfl
         · exact MsOk.of_eq rfl
         · exact MsOk.of_eq rfl
-        · show MsOk u (if u.hasMgr = true then andThen (mInput .k_stop "" 0 u) (fun w1 => (whenStopped w1, none))
-                  else tInput f .stoppedD u).1
+        · show MsOk u (if (stopCoop u).hasMgr = true then andThen (mInput .k_stop "" 0 (stopCoop u)) (fun w1 => (whenStopped w1, none))
+                  else tInput f .stoppedD (stopCoop u)).1
+          obtain ⟨b, e⟩ := stopCoop_same u
+          rw [e]
+          refine MsOk.trans (b := { u with coopStopped := b }) (MsOk.of_eq rfl) ?_
           split
           · refine msok_andThen (msok_mInput _ _ _ _) ?_
             intro x
